@@ -43,7 +43,9 @@ OwnFault == {"syntax", "utf8", "rule"}          \* the file itself cannot be rea
 UnwFault == {"unwparent", "unwdir"}             \* its destination cannot be written
 Roots    == {"in", "sub", "dlua", "file"}       \* input = in | in/sub | in/d.lua (directories) | one file
 OutForms == {"none", "same", "exfile", "exdir", "exdirdot", "newdir", "newext"}   \* exdirdot: an EXISTING directory whose name has an extension
-Configs  == {"empty", "default", "rootskip", "rootapply", "luaurc", "luaurcgap"}
+\* "retain": no rules and the default (token-based) generator -- every healthy file is a FIXED POINT of the configuration
+\* (what has to be written is byte-identical to the source; a file already at the destination is still replaced)
+Configs  == {"empty", "default", "rootskip", "rootapply", "luaurc", "luaurcgap", "retain"}
 \* "luaurc" / "luaurcgap": the run converts alias requires with the aliases of the `.luaurc` files of the tree (see
 \* "per-directory context" below); the other configurations never look at a `.luaurc`.
 RcCfgs   == {"luaurc", "luaurcgap"}
@@ -247,10 +249,13 @@ Paths(t0, t1) == DOMAIN t0 \cup DOMAIN t1
 \* the destination holds a file, and the run produced it (an old file at the destination was replaced; in place the
 \* source was rewritten -- every healthy source of the universe changes under every configuration of the universe,
 \* except that a file excluded by a root-level filter may stay as it is in place)
+\* under "retain" a healthy file is a fixed point: in place it stays as it is, elsewhere the destination holds its bytes
+FixedPoint(c) == c.cfg = "retain"
 WrittenAt(c, i, t0, t1) ==
   /\ At(t1, Dest(c, i)).k = "f"
-  /\ IF InPlace(c) THEN Excluded(c, i) \/ ~Same(t0, t1, Dest(c, i))
+  /\ IF InPlace(c) THEN Excluded(c, i) \/ FixedPoint(c) \/ ~Same(t0, t1, Dest(c, i))
      ELSE At(t0, Dest(c, i)).k = "f" => ~Same(t0, t1, Dest(c, i))
+  /\ (FixedPoint(c) /\ ~Bundle(c)) => At(t1, Dest(c, i)) = At(t0, Src(i))
 
 OneToOneOffenders(c, t0, t1) ==
   IF Strong(c) THEN {i \in HealthySet(c) : ~WrittenAt(c, i, t0, t1)}
